@@ -2,4 +2,6 @@
 import RF.Props.C07
 import RF.Props.C09
 import RF.Props.C12
+import RF.Props.C17
 import RF.Props.C18
+import RF.Props.C19
